@@ -177,6 +177,49 @@ func init() {
 				}
 			}
 		}
+		// 4. applyCPUSetWithNonePolicy: the unconditional top-level writeBECgroupsCPUSet calls, as
+		//    (value is the merged set?, isReversed); a guarded call is not listed.
+		var np []string
+		if fd := e.funcDecl("pkg/koordlet/qosmanager/plugins/cpusuppress", "CPUSuppress", "applyCPUSetWithNonePolicy"); fd == nil || fd.Body == nil {
+			e.fail("applyCPUSetWithNonePolicy not found")
+		} else {
+			// which local holds GenerateCPUSetStr(<merged>) where <merged> := MergeCPUSet(oldCPUSet, cpus)
+			mergedVar, mergedStr := "", ""
+			for _, st := range fd.Body.List {
+				if as, ok := st.(*ast.AssignStmt); ok && len(as.Lhs) == 1 && len(as.Rhs) == 1 {
+					rhs := c12Expr(as.Rhs[0])
+					if rhs == "MergeCPUSet(oldCPUSet,cpus)" {
+						mergedVar = c12Expr(as.Lhs[0])
+					}
+					if mergedVar != "" && rhs == "GenerateCPUSetStr("+mergedVar+")" {
+						mergedStr = c12Expr(as.Lhs[0])
+					}
+				}
+			}
+			nested := 0
+			ast.Inspect(fd.Body, func(n ast.Node) bool {
+				if c, ok := n.(*ast.CallExpr); ok && c12Expr(c.Fun) == "writeBECgroupsCPUSet" {
+					nested++
+				}
+				return true
+			})
+			for _, st := range fd.Body.List {
+				es, ok := st.(*ast.ExprStmt)
+				if !ok {
+					continue
+				}
+				c, ok := es.X.(*ast.CallExpr)
+				if !ok || c12Expr(c.Fun) != "writeBECgroupsCPUSet" || len(c.Args) != 3 {
+					continue
+				}
+				np = append(np, fmt.Sprintf("(%v, %s)", mergedStr != "" && c12Expr(c.Args[1]) == mergedStr, c12Expr(c.Args[2])))
+			}
+			if nested != len(np) {
+				np = append(np, "(false, false) /- a writeBECgroupsCPUSet call is conditional -/")
+			}
+		}
+		fmt.Fprintf(&e.out, "/-- applyCPUSetWithNonePolicy: (writes the merged set?, isReversed) per unconditional sweep -/\n")
+		fmt.Fprintf(&e.out, "def nonePolicySweeps : List (Bool × Bool) := [%s]\n\n", strings.Join(np, ", "))
 		fmt.Fprintf(&e.out, "def mergeWriteCachesWritten : Bool := %v\n", writeOK)
 		fmt.Fprintf(&e.out, "def mergeSkipCachesOld : Bool := %v\n", skipOK)
 	}
